@@ -65,12 +65,31 @@ type recApplier struct {
 	nInMsg int
 	failAt int
 	detail string
+	log    []string
 	viol   *violation
 	syncs  int
 	failed int
 }
 
 var errInjected = errors.New("injected apply failure")
+
+// twinApplier is the applier of the twin replica (see runner.twin): it only
+// records what it is handed.
+type twinApplier struct {
+	log    []string
+	nInMsg int
+	failAt int
+}
+
+func (a *twinApplier) Apply(e *wal.Entry) error {
+	a.nInMsg++
+	if a.failAt > 0 && a.nInMsg == a.failAt {
+		return errInjected
+	}
+	a.log = append(a.log, fmt.Sprintf("%d/%d/%x/%x", e.SequenceNumber, e.Type, e.Key, e.Value))
+	return nil
+}
+func (a *twinApplier) Sync() error { return nil }
 
 func (a *recApplier) Apply(e *wal.Entry) error {
 	a.nInMsg++
@@ -99,6 +118,7 @@ func (a *recApplier) Apply(e *wal.Entry) error {
 			return err
 		}
 	}
+	a.log = append(a.log, fmt.Sprintf("%d/%d/%x/%x", e.SequenceNumber, e.Type, e.Key, e.Value))
 	if v := a.o.afterApply(e, a.ctx, a.at); v != nil {
 		a.viol = v
 		return errors.New("oracle failed")
@@ -166,10 +186,16 @@ type runner struct {
 	repDir string
 	repEng *engine.EngineFacade
 	// observations for classification
-	sawDup, sawGap, sawHole, sawReset, sawCompressed, sawMislabel, sawAck, sawNackAnswered, sawFail bool
-	sawSplitOp                                                                                      bool
-	nMsgs, nErrs                                                                                    int
-	partialCause                                                                                    string
+	sawDup, sawGap, sawHole, sawReset, sawCompressed, sawMislabel, sawAck, sawNackAnswered, sawFail, sawSplitOp bool
+
+	nMsgs, nErrs int
+	partialCause string
+	// twin: a second real Replica that receives the same schedule with every
+	// really compressed message replaced by its uncompressed twin. Compression
+	// must be transparent: both replicas must apply the same entries.
+	twin   *replication.Replica
+	twinAp *twinApplier
+	twinCl *fakeClient
 }
 
 var sharedComp *replication.CompressionManager
@@ -215,6 +241,17 @@ func newRunner(h *history, c *Case) (*runner, error) {
 	rep.VerifSetClient(r.cl)
 	r.rep = rep
 	r.ap.rep = rep
+	if c.Variant != "engine" {
+		r.twinAp = &twinApplier{}
+		r.twinCl = &fakeClient{}
+		tw, err := replication.NewReplica(0, r.twinAp, cfg)
+		if err != nil {
+			r.close()
+			return nil, err
+		}
+		tw.VerifSetClient(r.twinCl)
+		r.twin = tw
+	}
 	if sharedComp == nil {
 		// one encoder for the whole process: a zstd encoder allocates its
 		// window on first use, which would dominate the cost of a case
@@ -233,6 +270,9 @@ func (r *runner) close() {
 	if r.rep != nil {
 		_ = r.rep.Stop()
 	}
+	if r.twin != nil {
+		_ = r.twin.Stop()
+	}
 	if r.repEng != nil {
 		_ = r.repEng.Close()
 	}
@@ -243,12 +283,13 @@ func (r *runner) close() {
 
 // build renders the message m from the primary. nil = the source has nothing
 // (e.g. no push was recorded for that operation).
-func (r *runner) build(m *Msg) (*pb.WALStreamResponse, error) {
+func (r *runner) build(m *Msg, plainTwin bool) (*pb.WALStreamResponse, error) {
 	var resp *pb.WALStreamResponse
 	switch m.Src {
 	case "poll":
 		ents, err := r.h.poll(m.From)
 		if err != nil {
+			ev.R().Note("poll error: " + err.Error())
 			return nil, nil // the primary had nothing to send (error on its side): no message
 		}
 		if len(ents) == 0 {
@@ -291,7 +332,11 @@ func (r *runner) build(m *Msg) (*pb.WALStreamResponse, error) {
 		}
 		resp.Entries = kept
 	}
-	if m.Enc != "" {
+	if plainTwin && m.Enc != "" {
+		// the uncompressed twin of a really compressed message
+		resp.Compressed = false
+		resp.Codec = pb.CompressionCodec_NONE
+	} else if m.Enc != "" {
 		codec := codecOf(m.Enc)
 		for _, e := range resp.Entries {
 			c, err := r.comp.Compress(e.Payload, codec)
@@ -313,7 +358,7 @@ func (r *runner) deliver(i int, m *Msg) (nack uint64, v *violation, err error) {
 		r.sawReset = true
 		return 0, nil, nil
 	}
-	resp, err := r.build(m)
+	resp, err := r.build(m, false)
 	if err != nil {
 		return 0, nil, err
 	}
@@ -391,7 +436,7 @@ func (r *runner) deliver(i int, m *Msg) (nack uint64, v *violation, err error) {
 		if expected > r.o.maxApplied {
 			r.partialCause = ""
 		} else {
-			ctx += "+after-partly-applied-message(" + r.partialCause + ")"
+			ctx = "after-partly-applied-message(" + r.partialCause + ")+" + ctx
 		}
 	}
 	msgCause := "plain"
@@ -421,7 +466,7 @@ func (r *runner) deliver(i int, m *Msg) (nack uint64, v *violation, err error) {
 	if r.ap.failed > failedBefore {
 		r.sawFail = true
 	}
-	if perr != nil && r.o.applied > appliedBefore && r.rep.VerifExpectedNext() <= r.o.maxApplied {
+	if r.o.applied > appliedBefore && r.rep.VerifExpectedNext() <= r.o.maxApplied {
 		r.partialCause = msgCause
 		ev.R().Count("messages_applied_in_part", 1)
 	}
@@ -437,6 +482,33 @@ func (r *runner) deliver(i int, m *Msg) (nack uint64, v *violation, err error) {
 		if v := r.ap.compareEngine(); v != nil {
 			v.Detail = detail
 			return 0, v, nil
+		}
+	}
+	if r.twin != nil {
+		tresp, err := r.build(m, true)
+		if err != nil || tresp == nil {
+			return 0, nil, fmt.Errorf("twin message could not be built: %v (%+v)", err, *m)
+		}
+		r.twinAp.nInMsg, r.twinAp.failAt = 0, m.FailAt
+		if m.Ack {
+			_ = r.twin.VerifProcessBatchAck(tresp)
+		} else {
+			_ = r.twin.VerifProcessBatch(tresp)
+		}
+		same := len(r.twinAp.log) == len(r.ap.log) && r.twin.VerifExpectedNext() == r.rep.VerifExpectedNext() &&
+			r.twin.GetLastAppliedSequence() == r.rep.GetLastAppliedSequence() && len(r.twinCl.nacks) == len(r.cl.nacks)
+		for j := len(r.ap.log) - 1; same && j >= 0 && j >= len(r.ap.log)-len(resp.Entries)-1; j-- {
+			same = r.ap.log[j] == r.twinAp.log[j]
+		}
+		if !same {
+			enc := m.Enc
+			if enc == "" {
+				enc = "no-compression-involved"
+			}
+			return 0, &violation{Kind: "codec:compressed-message-treated-differently", Ctx: enc, At: i, Detail: detail,
+				Msg: fmt.Sprintf("replica: %d entries applied, expects %d, reports %d, %d NACKs; twin fed the uncompressed message: %d applied, expects %d, reports %d, %d NACKs",
+					len(r.ap.log), r.rep.VerifExpectedNext(), r.rep.GetLastAppliedSequence(), len(r.cl.nacks),
+					len(r.twinAp.log), r.twin.VerifExpectedNext(), r.twin.GetLastAppliedSequence(), len(r.twinCl.nacks))}, nil
 		}
 	}
 	if len(r.cl.nacks) > nBefore {
